@@ -2,7 +2,7 @@
 use crate::rt::{run_shards, Acc, CheckMeta, Ctx};
 
 pub fn run(ctx: &Ctx) -> (CheckMeta, Acc) {
-    let n_hist = ctx.tier.pick(60, 600);
+    let n_hist = ctx.tier.pick(200, 6000);
     let steps = ctx.tier.pick(80, 200);
     let total = run_shards(ctx, 16, |sh, acc| {
         crate::mon::pools::run_cp_histories(ctx, sh, acc, n_hist, steps, "C01");
